@@ -40,7 +40,7 @@ class C12(Check):
         )
         spec = gen.gen_spec(keyed_rng(run_seed, "spec"), prof)
         spec["horizon"] = min(spec["horizon"], 7 if big else 6)
-        cfg = {}
+        cfg = {"debug": True} if rng.random() < 0.08 else {}   # debug mode tracks every blocking clause under its own literal
         plan = {"property": self.pid, "run_seed": run_seed, "sim_version": 1, "tier": tier,
                 "clients": [{"id": "A", "spec": spec, "config": cfg}], "script": [{"client": "A", "op": "solve"}]}
         fault_free = rng.random() < 0.5
